@@ -457,6 +457,12 @@ def run_poison(sc):
             d = w.terminal(poison_arn)
             if d is not None and d["status"] not in ("FAILED", "SUCCEEDED"):
                 fails.append(("poison-execution-odd-status", repr(d["status"])))
+        # the poison event is acknowledged once, after what its handling led to (the FAILED status of its execution) has been published, and nothing of it stays behind
+        from .. import monitors as M
+        am = M.AckMonitor([])
+        for b_, d_ in am.finish(w):
+            if b_.startswith(("publish-after-ack", "delivery-acked-twice", "ack-of-unknown", "drain:unacknowledged_messages")):
+                fails.append(("poison:" + b_, d_))
         if not eng.alive:
             fails.append(("engine-died", "the engine process exited"))
         if w.broker.protocol_errors:
